@@ -15,9 +15,7 @@ theorem handleBlobs_cursor (p : Bytes) (n : RNode) (da : Nat) (bs : List (Bytes 
     unfold handleBlobs
     split
     · rw [ih]
-    · split
-      · rfl
-      · rw [ih]
+    · rw [ih]
     · rw [ih]
 
 theorem processNext_cursor (p : Bytes) (n : RNode) (bs : List (Bytes × Oracle)) (fuel : Nat) (outs : List Fetch) (used : Nat) :
@@ -62,5 +60,36 @@ theorem scan_cursor_monotone (p : Bytes) (fuel : Nat) (n : RNode) (v : DAView) (
 /-- an empty blob is ignored before any decoding -/
 theorem empty_blob_ignored (o : Oracle) (p : Bytes) : (match classify o p [] with | .empty => true | _ => false) = true := by
   simp [classify]
+
+
+/-- **No blob brings the scan down**: handling any list of blobs (any bytes, any oracle answers) never sets the
+`crashed` flag of the model — the branch of `handlePotentialData` that dereferenced missing metadata is gone
+(/repo 76641b6) and the Lean classifier is total. -/
+theorem no_blob_crashes_the_scan (p : Bytes) (n : RNode) (da : Nat) (bs : List (Bytes × Oracle)) (evs : List Event) :
+    (handleBlobs p n da bs evs).1.crashed = n.crashed := by
+  induction bs generalizing n evs with
+  | nil => rfl
+  | cons b rest ih =>
+    obtain ⟨b, o⟩ := b
+    unfold handleBlobs
+    split <;> rw [ih]
+
+/-- signed data is handed to sync only with its metadata (what the sync loop needs to place it) -/
+theorem accepted_data_has_metadata (o : Oracle) (p bs : Bytes) (sd : SignedData)
+    (h : classifyData o p bs = .dataAccepted sd) : sd.data.metadata.isSome = true := by
+  unfold classifyData at h
+  split at h
+  · simp at h
+  · rename_i x _
+    split at h
+    · simp at h
+    · split at h
+      · simp at h
+      · rename_i hm
+        split at h
+        · have : x = sd := by simpa using h
+          subst this
+          cases hx : x.data.metadata <;> simp_all
+        · simp at h
 
 end Spec.C09
